@@ -163,7 +163,7 @@ class Spec:
         if not st.initiated:
             return ["initiate", "initiate-upgrade"]
         acts = ["ping", "settings:2", "settings:0", "settings:dflt", "incr:0", "close:0", "close:d", "rx:mfs:%d" % FRAME_LIMITS[1],
-                "rx:mfs:%d" % FRAME_LIMITS[3], "rx:ping", "rx:settings",
+                "rx:mfs:%d" % FRAME_LIMITS[3], "rx:ping", "rx:settings", "rx:settings-empty",
                 # the same received frames while an earlier call's output has not been collected yet: replies are APPENDED
                 "pend+rx:ping", "pend+rx:settings",
                 # our own MAX_FRAME_SIZE raised and acknowledged: it bounds what we RECEIVE, never what we send
@@ -265,6 +265,10 @@ class Spec:
                 o = H.recv(c, pre + wire.settings([(wire.S_MAX_FRAME_SIZE, v)]).serialize())
                 if o.kind == "ok":
                     st.F = v
+                exp_ack = True
+            elif parts[1] == "settings-empty":
+                # a SETTINGS frame without parameters is acknowledged like any other
+                o = H.recv(c, pre + wire.settings([]).serialize())
                 exp_ack = True
             elif parts[1] == "ping":
                 o = H.recv(c, pre + wire.ping(b"87654321").serialize())
